@@ -47,6 +47,9 @@ static void adopt(void* vp, size_t req, int hi, size_t al, size_t off, int zeroe
   if (p == NULL) { if (req < ((size_t)96 << 20) && !(hi >= 0 && heap_arena[hi])) FAIL("c01_alloc_failed", "%s(%zu, align %zu, off %zu) returned NULL", fn, req, al, off); return; }
   size_t us = mi_usable_size(p);
   if (us < req) FAIL("c03_usable_lt_size", "%s(%zu): usable %zu", fn, req, us);
+  { // the usable size reported for a (possibly interior) pointer must end inside the block that contains it (block bounds recomputed from the page geometry)
+    mi_page_t* pg = _mi_ptr_page(p); size_t bs = mi_page_block_size(pg); uint8_t* ps = mi_page_start(pg);
+    if (bs > 0 && p >= ps) { uint8_t* bstart = ps + ((size_t)(p - ps) / bs) * bs; if (p + us > bstart + bs) FAIL("c03_usable_beyond_block", "%s(%zu, align %zu, off %zu) = %p: usable size %zu ends %zu bytes past the end of its block [%p,+%zu)", fn, req, al, off, (void*)p, us, (size_t)((p + us) - (bstart + bs)), (void*)bstart, bs); } }
   if (al == 0) { size_t want = (req >= 16 ? 16 : 8); if (((uintptr_t)p % want) != 0) FAIL("c03_min_alignment", "%s(%zu) = %p not %zu-aligned", fn, req, (void*)p, want); }
   else if ((((uintptr_t)p + off) % al) != 0) FAIL("c03_misaligned", "%s(%zu, align %zu, off %zu) = %p", fn, req, al, off, (void*)p);
   for (int i = 0; i < nlive; i++) {
